@@ -539,7 +539,10 @@ example (strat strat2 : Strat) :
   obtain ⟨t', c', s', h, t'', c'', s'', h2, hsum, _, _, hd, _⟩ :=
     type_swap_recommit_ok ctx good [116] _ _ tree_plain tree_sorted tree_names
       (show treeSwapped.plain = true by simp [treeSwapped, Node.plain, plainList])
-      (fun _ _ => ⟨rfl, fun _ _ _ => rfl⟩) [] empty_consistent strat strat2
+      (fun nm h => ⟨rfl, fun _ _ _ => rfl, by
+        simp only [allNames, allNamesList, List.mem_cons, List.mem_append,
+          List.not_mem_nil, List.append_nil, or_false, List.nil_append] at h
+        rcases h with rfl | rfl | rfl | rfl <;> decide⟩) [] empty_consistent strat strat2
   exact ⟨t', c', s', h, t'', c'', s'', h2, hsum, hd⟩
 
 def typeSwap (t2 : Node K) : String :=
